@@ -41,8 +41,13 @@ def run(ctx):
     raises = [n for n in cfg.nodes if n.kind == "stmt" and isinstance(n.ast, ast.Raise) and any(cfg.dominates(e, n) for e in cfg.edge_nodes(guard, "T"))]
     r1.check(bool(raises), f"{db.rel}:RedunBackendDb.record_value:reject", "an oversized value is not rejected with an exception", db.rel, guard.lineno)
     stores = [c for c in calls_in(rv, shallow=True) if (call_name(c) or "").endswith("value_store.put") or call_name(c) == "Value"]
+    if not any((call_name(c) or "").endswith("value_store.put") for c in stores):
+        r1.violation(f"{db.rel}:RedunBackendDb.record_value:no-put", "record_value substitutes/uses the value-store placeholder path but never puts the bytes into the value store: offloaded values read back as absent or empty", db.rel, rv.lineno)
+        for r in ctx.rules:
+            r.floor = 0
+        return
     if len(stores) < 2:
-        raise AnalysisError("record_value: value_store.put / Value(...) not found", "RedunBackendDb.record_value")
+        raise AnalysisError("record_value: Value(...) insert not found", "RedunBackendDb.record_value")
     fe = cfg.edge_nodes(guard, "F")
     for c in stores:
         ok = any(cfg.dominates(e, cfg.node_of(c)) for e in fe)
